@@ -128,6 +128,9 @@ func c12CheckOne(c *fw.Ctx, s1, s2 seg, tr c12truth, locate, nonRobust bool) boo
 		return false
 	}
 	c.Eval(1)
+	if !holdAndRecheck(c, "c12-robust", "LineIntersectsLine result", func() string { return fmt.Sprint(res.Type(), res.Intersection()) }) {
+		return false
+	}
 	if res.Type() != tr.typ {
 		c.Fail("wrong-classification", "robust intersector says %s, exact arithmetic says %s (%s)", res.Type(), tr.typ, tr.class)
 		return false
